@@ -728,9 +728,27 @@ def r65(ctx, repo):
                 and "isinstance" in txt(n.test):
             nd = n
     if nd is not None:
-        r = [x for x in nd.body if isinstance(x, ast.Return)]
-        ok = bool(r) and isinstance(r[0].value, ast.Call) and last_attr(
-            r[0].value) == "tobytes" and not r[0].value.args
+        # every return of the branch hands back the bytes of the whole
+        # array (no sampled / truncated digest on any path)
+        par = o2b.args.args[0].arg
+        r = [x for s_ in nd.body for x in walk(s_)
+             if isinstance(x, ast.Return)]
+
+        def whole(v):
+            if isinstance(v, ast.Call) and last_attr(v) == "tobytes" \
+                    and not v.args and not v.keywords:
+                recv = v.func.value
+                if txt(recv) == par:
+                    return True
+                if isinstance(recv, ast.Call) and call_name(recv) in (
+                        "np.ascontiguousarray", "np.asarray") and recv.args \
+                        and txt(recv.args[0]) == par:
+                    return True
+            if isinstance(v, ast.Call) and call_name(v) == "bytes" \
+                    and len(v.args) == 1 and txt(v.args[0]) == par:
+                return True
+            return False
+        ok = bool(r) and all(whole(x.value) for x in r)
         ctx.ob("R6.5", ok, "ndarray data are digested completely (tobytes)"
                if ok else "ndarray branch of obj2bytes does not digest the "
                "complete buffer", node=nd, label="obj2bytes ndarray complete")
@@ -976,6 +994,14 @@ def _drop(s, what):
 
 
 MUTANTS = [
+    ("large arrays digested by head and tail only (seeded C04_8)",
+     "dclab/util.py",
+     ("    elif isinstance(obj, np.ndarray):\n        return obj.tobytes()\n",
+      "    elif isinstance(obj, np.ndarray):\n"
+      "        if obj.nbytes > 1048576:\n"
+      "            flat = obj.reshape(-1)\n"
+      "            return flat[:8192].tobytes() + flat[-8192:].tobytes()\n"
+      "        return obj.tobytes()\n"), "R6.5"),
     ("LUT re-registration allowed for the same file name (seeded C06_9)",
      LUT_LOAD,
      ("    if identifier in EXTERNAL_LUTS:\n",
